@@ -91,6 +91,19 @@ func judgeGenerations(sc *SrvScenario, h *SrvHistory, res *core.Result, staleKin
 		return out
 	}
 	bc := backendClass(sc.Backend)
+	// a reload whose target is valid and that was not slowed down beyond the timeout must succeed
+	// (this is what makes "a later partial reload follows the database last switched to" visible
+	// when the server forgot or mis-recorded the path)
+	for _, o := range h.Ops {
+		if o.Op.Kind == "reload" && o.Done && !o.OK && o.Op.Fault == "" && !errors.Is(o.Err, db.ErrReloadTimeout) && o.Op.DelayMs <= sc.TimeoutMs {
+			kind := "partial"
+			if o.Op.Full {
+				kind = "full"
+			}
+			res.Add("valid-reload-failed", fmt.Sprintf("valid-reload-failed|backend=%s|%s", bc, kind),
+				fmt.Sprintf("reload #%d (%s) of a valid, readable target holding the validation key failed: %v", o.Idx, o.Label, o.Err))
+		}
+	}
 	var ops []porcupine.Operation
 	for _, o := range h.Ops {
 		if o.Op.Kind == "reload" && o.Done && o.OK {
